@@ -1,5 +1,5 @@
 """./check Cxx [--tier quick|thorough] [--replay path]"""
-import argparse, importlib, os, sys, traceback
+import argparse, importlib, json, os, sys, traceback
 from . import facts, report
 from .compdb import AnalysisBroken
 
@@ -44,6 +44,27 @@ def thorough(chk, prop):
     return broken
 
 
+def check_anchors(prop, prog):
+    """the member variables / member functions this check refers to by name must all exist (sa/anchors.json, written by
+    tool/gen_anchors.py from the rule sources): a renamed or removed one means the rules would mis-read the code -> exit 2"""
+    path = os.path.join(os.path.dirname(os.path.abspath(__file__)), "anchors.json")
+    if not os.path.exists(path):
+        return
+    want = json.load(open(path)).get(prop)
+    if not want:
+        return
+    fields, methods = set(), set()
+    for q, r in prog.records.items():
+        if q.startswith("vfps::"):
+            fields |= {f["name"] for f in r.get("fields", [])}
+    for f in prog.functions.values():
+        if (f.get("qname") or "").startswith("vfps::") and f.get("class"):
+            methods.add(f["name"])
+    gone = ["member " + w for w in want["fields"] if w not in fields] + ["member function " + w for w in want["methods"] if w not in methods]
+    if gone:
+        raise AnalysisBroken("anchors vanished (renamed or removed): %s" % ", ".join(gone))
+
+
 def main():
     ap = argparse.ArgumentParser()
     ap.add_argument("prop")
@@ -59,6 +80,7 @@ def main():
         chk = report.Check(a.prop, tier, getattr(mod, "LEVEL", "other"))
         prog = facts.load_program()
         chk.units = list(prog.units)
+        check_anchors(a.prop, prog)
         mod.run(chk, prog)
         mr = getattr(prog, "main_roles", None)
         if mr and (mr.get("renamed") or mr.get("spliced") or mr.get("named_steps") or mr.get("unresolved")):
